@@ -1490,6 +1490,21 @@ int32_t tls13ParseServerHello(ssl_t *ssl,
            SSL_NO_TLS_1_3 to fall back to the <1.3 decode
            code path. */
         psTraceInfo("Unable to negotiate TLS 1.3, trying <1.3\n");
+        if (rc == SSL_ENCODE_RESPONSE && ssl->tls13IncorrectDheKeyShare)
+        {
+            /* HelloRetryRequest: the suite it names fixes the hash of the
+               transcript (RFC 8446, 4.1.4).  It is needed right now, to
+               replace ClientHello1 by message_hash with the right hash. */
+            const sslCipherSpec_t *hrrCipher = sslGetCipherSpec(ssl, cipher);
+
+            if (hrrCipher == NULL)
+            {
+                ssl->err = SSL_ALERT_ILLEGAL_PARAMETER;
+                psTraceIntInfo("Can't support requested cipher: %d\n", cipher);
+                return MATRIXSSL_ERROR;
+            }
+            ssl->cipher = hrrCipher;
+        }
         return rc;
     }
 
